@@ -1,10 +1,10 @@
 """C06 - a ResendRequest is answered completely, in order and without side effects.
 
 Theorems (Props/C06.v) are about coq/theories/Fix/Resend.v, a message-level model of
-AsyncFIXConnection._process_resend with what it calls (Journaler.recover_messages / set_seq_num /
+AsyncFIXConnection._process_resend (as repaired by fixes/D12-resend-keeps-journal.patch) with what it calls (Journaler.recover_messages / set_seq_num /
 persist_msg, send_msg, the codec's sequence-number selection).  This harness ties the model to the
 code: a real AsyncFIXDummyServer over a real SQLite Journaler (no sockets: fake writer, dummy
-reader) sends a journal of messages, optionally answers earlier ResendRequests (leftovers) and
+reader) sends a journal of messages, optionally answers earlier ResendRequests and
 loses rows (holes), then receives one ResendRequest frame.  The extracted model is run on the
 observed pre-state and must reproduce the reply frames, the journal, the counters, the state and
 the swallowed exception class; an independent oracle written from the property text decides the
@@ -17,8 +17,10 @@ slot k (1-based) describes outbound number k:  <type><flags>
         4 SequenceReset  5 Logout  D NewOrderSingle  J AllocationInstruction (repeating group)
         8 ExecutionReport
   flags d  the application's replay filter declines this number
-        l  leftover: the number was already covered by an earlier, complete ResendRequest
-           (maximal runs of l-slots are re-requested right after their last message was sent)
+        l  the number was already covered by an earlier, complete ResendRequest
+           (maximal runs of l-slots are re-requested right after their last message was sent;
+           since the D12 repair this leaves the journal as it was)
+        p  (application types) the message was sent with PossDupFlag=N in its body
         h  the row is missing from the journal (deleted after everything else)
 state AWAITING: the connection itself awaits a resend (a too-high inbound message made it send a
 ResendRequest, which occupies one more outbound number after the slots).
@@ -38,10 +40,10 @@ META = {
     "tables": ["GenEnums", "GenConst"],
     "files": ["asyncfix/connection.py", "asyncfix/journaler.py", "asyncfix/codec.py", "asyncfix/session.py"],
     "rule": "exhaustive journals up to length 2 over the slot alphabet, random journals up to length 8 (thorough 12) with "
-            "slots in {3 application types, 6 session types, declined, hole, leftover of an earlier resend} x ALL (Begin, End) "
+            "slots in {3 application types, 6 session types, declined, hole, already resent once, sent with tag 43} x ALL (Begin, End) "
             "in [-1, len+2]^2 incl. End=0 x {ACTIVE, RESENDREQ_AWAITING}, plus a malformed stream (missing / non-numeric / "
             "lenient / 64-bit-overflowing BeginSeqNo, EndSeqNo); a case is one (journal, request, start state); non-trivial "
-            "when the request is well formed with 1 <= Begin < next_num_out (something is replayed or gap-filled); distinct by "
+            "when the request is well formed with Begin < next_num_out (something is replayed or gap-filled); distinct by "
             "canonical case",
     "trusted_base": [
         "message-level abstraction of Fix/Resend.v: a journal row is (number, MsgType, SendingTime, flat body fields); "
@@ -288,6 +290,8 @@ async def build(env, slots, state):
         assert sess.next_num_out == (k if k > 1 else 2), (k, sess.next_num_out)
         if k == 1:
             pass
+        elif typ == "D" and "p" in flags:
+            await conn.send_msg(FIXMessage(FMsg.NEWORDERSINGLE, {11: "c%d" % k, 43: "N", 55: "SYM"}))
         elif typ == "D":
             await conn.send_msg(FIXMessage(FMsg.NEWORDERSINGLE, {11: "c%d" % k, 55: "SYM", 54: 1, 38: 10 * k}))
         elif typ == "J":
@@ -448,7 +452,9 @@ def reference_reply(pre, b, e, declined):
     """Expected chain for ResendRequest(b, e) over the pre-state journal, as
     ('R', n) retransmission of number n | ('G', first, new_seq_no)."""
     last = pre["nout"] - 1
-    if b is None or e is None or b < 1 or (e != 0 and e < b):
+    if b is not None:
+        b = max(b, 1)             # a BeginSeqNo below 1 is read as "from the first message" (accepted repair)
+    if b is None or e is None or (e != 0 and e < b):
         return [], None           # invalid request: nothing is retransmitted
     hi = last if e == 0 else min(e, last)
     J = {r[0]: r for r in pre["rows"]}
@@ -507,10 +513,11 @@ def check_property(case, obs):
     if post["state"] != pre["state"]:
         bad.append("connection state %d -> %d" % (pre["state"], post["state"]))
     P = {r[0]: r for r in post["rows"]}
-    outside = [n for n in sorted(set(J) | set(P)) if rng is None or not (rng[0] <= n <= rng[1])]
-    changed = [n for n in outside if J.get(n) != P.get(n)]
+    changed = [n for n in sorted(set(J) | set(P)) if J.get(n) != P.get(n)]
     if changed:
-        bad.append("journaled messages outside the range changed: %s" % [(n, "deleted" if n not in P else "rewritten") for n in changed])
+        inside = [n for n in changed if rng is not None and rng[0] <= n <= rng[1]]
+        bad.append("journaled messages changed: %s (%d of them inside the requested range)" % (
+            [(n, "deleted" if n not in P else "rewritten") for n in changed], len(inside)))
     # inbound side: only the request itself may have been counted
     counted = pre["state"] == ST["ACTIVE"]
     if post["nin"] != pre["nin"] + (1 if counted else 0) or post["sin"] != (pre["nin"] if counted else pre["sin"]) \
@@ -528,10 +535,10 @@ def classify(case, obs):
     b, e = req_int(case["begin"]), req_int(case["end"])
     nout = pre["nout"]
     out = []
-    if b is None or e is None or not (-2 ** 63 <= b <= INT64_MAX) or not (-2 ** 63 <= e <= INT64_MAX):
+    if b is not None:
+        b = max(b, 1)             # the number the handler uses
+    if b is None or e is None or not (b <= INT64_MAX) or not (-2 ** 63 <= e <= INT64_MAX):
         return ["C06-request-unparsable"]
-    if b <= 0:
-        return ["C06-begin-nonpositive"]
     if b > nout:
         return ["C06-begin-beyond"]
     hi = INT64_MAX if e == 0 else e
@@ -541,7 +548,7 @@ def classify(case, obs):
     if e != 0 and e < nout - 1 and b < nout:
         out.append("C06-bounded-end")
     if any(t in ("43", "122") for r in replayed for t, _ in r[3]):
-        out.append("C06-leftover-copy-in-range")
+        out.append("C06-row-carries-possdup-tags")
     if any(r[0] > b and (r[0] - 1) not in keys for r in replayed):
         out.append("C06-hole-before-replayed")
     return out
@@ -553,7 +560,7 @@ def in_theorem_domain(case, obs):
     b, e = req_int(case["begin"]), req_int(case["end"])
     if b is None or e is None:
         return False
-    return 1 <= b <= pre["nout"] and -2 ** 63 <= e <= INT64_MAX and not classify(case, obs)
+    return b <= pre["nout"] and -2 ** 63 <= e <= INT64_MAX and not classify(case, obs)
 
 
 # =========================================================================================
@@ -566,6 +573,7 @@ def slot_alphabet(first=False):
     out = []
     for t in APP_TYPES:
         out += [t, t + "d", t + "l", t + "h", t + "dl"]
+    out += ["Dp", "Dpd"]
     for t in SESSION_TYPES:
         out += [t, t + "l", t + "h"]
     return out
@@ -599,7 +607,8 @@ SHOWCASE = [
     ["A", "Dl", "0l", "0l", "8"],                                  # second request over a replayed range
     ["A", "D", "Dh", "D", "D"],                                    # hole between application rows (D21)
     ["A", "D", "D", "D", "Dh", "Dh"],                              # missing suffix
-    ["A", "0l", "0l", "D"],                                        # gap fill left behind, then an application message
+    ["A", "0l", "0l", "D"],                                        # gap-filled once already, then an application message
+    ["A", "D", "Dp", "0", "D"],                                    # an application message journaled with tag 43 in its body
 ]
 
 MALFORMED_VALUES = [None, "", "x", "1x", " 2", "+2", "2_0", "0x2", "2.0", "-", "9223372036854775807", "9223372036854775808",
@@ -692,7 +701,7 @@ def evaluate(ctx, cases, use_model=True):
             ctx.disagree(case, o, None, "harness-could-not-build-case")
             continue
         b = req_int(case["begin"])
-        nontriv = b is not None and req_int(case["end"]) is not None and 1 <= b < o["pre"]["nout"]
+        nontriv = b is not None and req_int(case["end"]) is not None and b < o["pre"]["nout"]
         ip = o["projection"]
         ctx.case(canon(case), nontriv,
                  sample={"case": case, "reply": [(w[1], w[0]) for w in o["wire"]], "state_after": o["post"]["state"],
@@ -719,11 +728,15 @@ def evaluate(ctx, cases, use_model=True):
 # the witnesses of the *_refuted theorems of Props/C06.v, in the harness's case syntax
 WITNESSES = {
     "C06_bounded_end_refuted": ({"slots": ["A", "D", "D", "D"], "begin": "2", "end": "2", "state": "ACTIVE"}, "C06-bounded-end"),
-    "C06_second_request_refuted": ({"slots": ["A", "Dl", "Dl"], "begin": "2", "end": "0", "state": "ACTIVE"}, "C06-leftover-copy-in-range"),
     "C06_begin_beyond_refuted": ({"slots": ["A", "D"], "begin": "5", "end": "0", "state": "ACTIVE"}, "C06-begin-beyond"),
-    "C06_begin_nonpositive_refuted": ({"slots": ["A", "D"], "begin": "0", "end": "0", "state": "ACTIVE"}, "C06-begin-nonpositive"),
     "C06_unparsable_refuted": ({"slots": ["A", "D"], "begin": "x", "end": "0", "state": "ACTIVE"}, "C06-request-unparsable"),
     "C06_hole_refuted": ({"slots": ["A", "D", "Dh", "D", "D"], "begin": "2", "end": "0", "state": "ACTIVE"}, "C06-hole-before-replayed"),
+    "C06_possdup_tag_refuted": ({"slots": ["A", "Dp"], "begin": "2", "end": "0", "state": "ACTIVE"}, "C06-row-carries-possdup-tags"),
+}
+# positive witnesses: must satisfy the property on the implementation (a second request over a replayed range)
+POSITIVE = {
+    "C06_second_request_ok": {"slots": ["A", "Dl", "Dl"], "begin": "2", "end": "0", "state": "ACTIVE"},
+    "C06_begin_nonpositive_example": {"slots": ["A", "D"], "begin": "-3", "end": "0", "state": "ACTIVE"},
 }
 
 
@@ -742,6 +755,12 @@ def confirm_witnesses(ctx):
         elif got != [cls]:
             ctx.disagree(case, got, [cls], "witness-class:" + thm)
     ctx.extra["refuted_witnesses_on_implementation"] = out
+    pos = {}
+    for thm, case in POSITIVE.items():
+        o = run_case(case)
+        bad = check_property(case, o)
+        pos[thm] = {"case": case, "reply": [(w[1], w[0]) for w in o["wire"]], "holds": not bad, "breach": "; ".join(bad)[:300]}
+    ctx.extra["positive_witnesses_on_implementation"] = pos
 
 
 AUDITED = {"_process_resend", "send_msg", "set_seq_num", "persist_msg", "recover_messages", "should_replay"}
@@ -788,7 +807,7 @@ def coverage_audit(ctx, cases):
 
 def run(ctx):
     confirm_witnesses(ctx)
-    cases = [w[0] for w in WITNESSES.values()] + generate(ctx)
+    cases = [w[0] for w in WITNESSES.values()] + list(POSITIVE.values()) + generate(ctx)
     evaluate(ctx, cases)
     if ctx.tier == "thorough":
         coverage_audit(ctx, [w[0] for w in WITNESSES.values()] + cases_for_journal(SHOWCASE[0])[::7]
